@@ -1319,7 +1319,7 @@ def run(chk, replay=None):
 
         # ---- (2) walks
         t0 = time.time()
-        ntrees = 60 if quick else 600
+        ntrees = 180 if quick else 1500
         trees = [gen_tree(rng) for _ in range(ntrees)]
         # the same tree in a second enumeration order of the entries (creation order on disk)
         trees += [shuffle_tree(rng, t) for t in trees[:ntrees // 6]]
@@ -1343,7 +1343,7 @@ def run(chk, replay=None):
 
         # ---- (3) CLI level
         t0 = time.time()
-        ncases = 4 if quick else 24
+        ncases = 8 if quick else 40
         from concurrent.futures import ThreadPoolExecutor
         ctrees = [gen_cli_tree(rng) for _ in range(ncases)]
         tdirs = [rng.choice([e[1] for e in t if e[0] == "d" and "/" not in e[1]]) for t in ctrees]
